@@ -131,7 +131,7 @@ Theorem C16_toFlags_tests :
   flag_on (toFlags o) NF_WRITE_REQUIRE = toFlags_opts_WriteRequireField o /\
   flag_on (toFlags o) NF_NO_BASE64 = toFlags_opts_NoBase64Binary o /\
   flag_on (toFlags o) NF_WRITE_OPTIONAL = toFlags_opts_WriteOptionalField o /\
-  flag_on (toFlags o) NF_TRACE_BACK = toFlags_opts_ReadHttpValueFallback o.
+  flag_on (toFlags o) NF_TRACE_BACK = (toFlags_opts_ReadHttpValueFallback o || (toFlags_opts_EnableHttpMapping o && toFlags_opts_TracebackRequredOrRootFields o)).
 Proof. exact toFlags_tests. Qed.
 Print Assumptions C16_toFlags_tests.
 
